@@ -77,7 +77,19 @@ pub fn inputs_of(c: &Case, spec: &GrammarSpec) -> Vec<String> {
             return vec![];
         }
     }
-    c.inputs
+    let mut raw: Vec<String> = vec![];
+    if let Gram::Bnf(_, m) = &c.gram {
+        if *m >= 8 {
+            // overlapping-terminal family: also arbitrary strings over its alphabet (a regex
+            // that is not anchored as a whole finds its later alternatives further on)
+            for tape in c.inputs.iter() {
+                let s: String = tape.tape.iter().take(2 + tape.tape.len() % 7).map(|v| ['a', 'b', 'c', 'a', 'b', ' '][*v as usize % 6]).collect();
+                raw.push(s);
+            }
+        }
+    }
+    let mut v: Vec<String> = c
+        .inputs
         .iter()
         .enumerate()
         .map(|(ii, tape)| {
@@ -88,7 +100,9 @@ pub fn inputs_of(c: &Case, spec: &GrammarSpec) -> Vec<String> {
                 _ => gen::render_tokens_sep(&spec.terms, &toks, if ii % 2 == 0 { LayoutStyle::Ascii } else { LayoutStyle::Minimal }, &mut cur, ii % 4 != 3).text,
             }
         })
-        .collect()
+        .collect();
+    v.extend(raw);
+    v
 }
 
 fn cfg_a(c: &Case) -> Cfg {
